@@ -14,7 +14,7 @@
 (*            with conds a sequence of [cmp, a, b, ct] (one row = the      *)
 (*            single-condition form) and operands                          *)
 (*              [k |-> "int", v]  |  [k |-> "sig", src, t]  |              *)
-(*              [k |-> "name", v]     (a signal read by name)  |           *)
+(*              [k |-> "name", s]     (a signal read by name)  |           *)
 (*              [k |-> "opaque", u]   (a bundle reference: never shared)   *)
 (*            src is the index of an EARLIER node.                         *)
 (*   Visit    one step of the optimizer's single pass: compute the key of  *)
@@ -36,7 +36,7 @@ svars == <<s_ops, s_i, s_cache, s_repl, s_kept>>
 Canon(repl, id) == IF id \in DOMAIN repl THEN repl[id] ELSE id
 VKey(repl, v) == CASE v.k = "sig" -> <<"sig", Canon(repl, v.src), v.t>>
                    [] v.k = "int" -> <<"int", v.v>>
-                   [] v.k = "name" -> <<"name", v.v>>
+                   [] v.k = "name" -> <<"name", v.s>>
                    [] OTHER -> <<"opaque", v.u>>
 \* everything that decides what the operation computes and where it puts it
 Key(repl, n) == CASE n.kind = "arith" -> <<"arith", n.op, VKey(repl, n.l), VKey(repl, n.r), n.out>>
@@ -60,7 +60,7 @@ SDone == s_i > Len(s_ops)
 (* the same values, recursively down to the leaves.  Instead of building the terms, nodes are numbered by their class: Reps(g)[i]  *)
 (* is the least j <= i that denotes the same value as i in graph g (computed in one pass, operands refer to earlier nodes).       *)
 (* Node k of a graph may be marked [twin |-> j]: it is the leaf j itself (used to compare two graphs over the same leaves).        *)
-SV(r, v) == CASE v.k = "sig" -> <<"sig", r[v.src], v.t>> [] v.k = "int" -> <<"int", v.v>> [] v.k = "name" -> <<"name", v.v>> [] OTHER -> <<"opaque", v.u>>
+SV(r, v) == CASE v.k = "sig" -> <<"sig", r[v.src], v.t>> [] v.k = "int" -> <<"int", v.v>> [] v.k = "name" -> <<"name", v.s>> [] OTHER -> <<"opaque", v.u>>
 \* "the same value" is semantic, not textual: a + b and b + a, a > b and b < a denote the same (a maintainer may make the pass merge
 \* them); a ^ b (power) and b ^ a, a - b and b - a do not.  An unordered pair is written as the set of its two orientations.
 Commutative == {"+", "*", "AND", "OR", "XOR"}
